@@ -572,6 +572,15 @@ def install(cfg):
     if hasattr(shutil, "_USE_CP_COPY_FILE_RANGE"):
         shutil._USE_CP_COPY_FILE_RANGE = False
 
+    if cfg.get("pool") and cfg["pool"].get("n"):
+        # the simulated machine has as many CPUs as the plan's pool has workers
+        n_cpu = int(cfg["pool"]["n"])
+        os.cpu_count = lambda: n_cpu
+        if hasattr(os, "process_cpu_count"):
+            os.process_cpu_count = lambda: n_cpu
+        if hasattr(os, "sched_getaffinity"):
+            os.sched_getaffinity = lambda pid=0: set(range(n_cpu))
+
     import multiprocessing
     multiprocessing.Pool = _pool.SimForkPool
     if cfg.get("real_pool"):
